@@ -1,0 +1,7 @@
+//go:build verif
+
+package proxy
+
+// C10PlayerNameOK reports whether the login username check (playerNameRegex) accepts s.
+// Verification hook for property C10; no logic of its own.
+func C10PlayerNameOK(s string) bool { return playerNameRegex.MatchString(s) }
